@@ -11,7 +11,9 @@ package sched
 
 import (
 	"fmt"
+	"os"
 	"runtime"
+	"strconv"
 	"strings"
 	"sync"
 	"time"
@@ -86,7 +88,16 @@ type Sched struct {
 // New returns a scheduler for one case.
 func New(schedule []uint8) *Sched {
 	return &Sched{notify: make(chan struct{}, 1), Schedule: schedule,
-		MaxSteps: 20000, Watchdog: 20 * time.Second, Fair: 300}
+		MaxSteps: 20000, Watchdog: watchdogDefault(), Fair: 300}
+}
+
+// watchdogDefault is 20 s; VERIF_TEST_WATCHDOG_MS shortens it in the generated search only (not in replays), which is
+// how the driver's second look at an inconclusive case is exercised.
+func watchdogDefault() time.Duration {
+	if ms, err := strconv.Atoi(os.Getenv("VERIF_TEST_WATCHDOG_MS")); err == nil && ms > 0 && os.Getenv("VERIF_MODE") != "replay" {
+		return time.Duration(ms) * time.Millisecond
+	}
+	return 20 * time.Second
 }
 
 // Seq returns the next value of a global event counter (total order of recorded events).
